@@ -24,8 +24,8 @@ SUBSTRATES = _c03.SUBSTRATES + ["COCC.[H][H]", "CCOC.[H][H]", "CC(=O)Cl.O", "CC(
 STD = Standardize()
 
 
-def result_set(substrate, template, invert, strategy, explicit_h=False):
-    r = SynReactor(substrate=substrate, template=template, invert=invert, explicit_h=explicit_h, strategy=strategy)
+def result_set(substrate, template, invert, strategy, explicit_h=False, **kw):
+    r = SynReactor(substrate=substrate, template=template, invert=invert, explicit_h=explicit_h, strategy=strategy, **kw)
     out = set()
     for s in r.smarts_list:
         try:
@@ -133,6 +133,55 @@ def check_pair(tw, template, substrate, fails, rng, tags, k=2):
     return nres
 
 
+# configuration matrix: the invariance must hold for every strategy, for the explicit-hydrogen template path and under an embedding cap
+MATRIX_PAIRS = [
+    ("[C:1]=[C:2].[H:3][O:4][H:5]>>[H:3][C:1][C:2][O:4][H:5]", "C=CC.O"),                                              # hydration, unsymmetrical alkene
+    ("[C:2](=[O:3])[O:4][H:7].[C:5][O:6][H:8]>>[C:2](=[O:3])[O:6][C:5].[H:7][O:4][H:8]", "CO.CC(=O)O"),                  # components of different sizes
+    ("[C:2](=[O:3])[O:4][H:7].[C:5][O:6][H:8]>>[C:2](=[O:3])[O:6][C:5].[H:7][O:4][H:8]", "CCO.OC(=O)CC.O"),
+    ("[C:1]=[C:2].[H:3][Br:4]>>[H:3][C:1][C:2][Br:4]", "C=CC=CC.Br"),                                                    # 4 embeddings: caps 2, 3 are exceeded
+    ("[C:1](=[O:2])[Cl:3].[N:4]([H:5])([H:6])[H:7]>>[C:1](=[O:2])[N:4]([H:6])[H:7].[Cl:3][H:5]", "CC(=O)Cl.N"),
+]
+
+
+def fragment_orders(smiles, rng, k):
+    frags = smiles.split(".")
+    orders = list(itertools.permutations(frags))[:6]
+    out = [".".join(o) for o in orders]
+    out += [chem.rewrite_smiles(smiles, rng) for _ in range(k)]
+    return list(dict.fromkeys(out))
+
+
+def check_matrix(template, substrate, fails, rng, tags, k=2):
+    n = 0
+    writings = fragment_orders(substrate, rng, k)
+    templates = [template] + [chem.renumber_rsmi(template, rng) for _ in range(k)]
+    for strategy in ("all", "comp", "bt"):
+        for implicit_temp in (False, True):
+            for cap in (None, 2, 3):
+                cfg = {"strategy": strategy, "implicit_temp": implicit_temp, "embed_threshold": cap}
+                ref = None
+                for w in writings:
+                    for t in (templates if w == writings[0] else templates[:1]):
+                        try:
+                            got = result_set(w, t, False, strategy, implicit_temp=implicit_temp, embed_threshold=cap)
+                        except Exception as ex:
+                            fails.append({"function": "SynReactor", "violations": ["raises: %r" % (ex,)], "template": t, "substrate": w, "config": cfg,
+                                          "tags": dict(tags, clause="raises")})
+                            continue
+                        n += len(got)
+                        if ref is None:
+                            ref = (got, w, t)
+                        elif got != ref[0]:
+                            fails.append({"function": "SynReactor", "template": t, "substrate": w, "config": cfg, "tags": dict(tags, clause="matrix-invariance"),
+                                          "violations": ["matrix-invariance: %s: substrate written %s / template %s gives %d reactions, written %s / %s gives %d (difference %s)" % (
+                                              cfg, w, t, len(got), ref[1], ref[2], len(ref[0]), sorted(got ^ ref[0])[:2])]})
+                            break
+                    else:
+                        continue
+                    break
+    return n
+
+
 def run(tw, tier, seed, only=None):
     rng = random.Random(seed)
     fails, cases, nontriv, samples = [], 0, 0, []
@@ -160,6 +209,14 @@ def run(tw, tier, seed, only=None):
             n = 0
         nontriv += 1 if n else 0
         cases += 1
+    for t, sub in MATRIX_PAIRS:
+        try:
+            n = check_matrix(t, sub, fails, rng, {"family": "matrix"}, k=2 if tier == "quick" else 5)
+        except Exception as ex:
+            fails.append({"function": "C05 twin", "violations": ["raised %r" % (ex,)], "template": t, "substrate": sub, "tags": {}})
+            n = 0
+        nontriv += 1 if n else 0
+        cases += 1
     # the hydrogen molecule can be written [H][H] or [HH]
     for t, sub in (("[CH2:1]=[CH2:2].[H:3][H:4]>>[CH2:1]([H:3])[CH2:2][H:4]", "C=C"), ("[C:1][O:2][C:3].[H:4][H:5]>>[C:1][O:2][H:4].[H:5][C:3]", "COCC")):
         try:
@@ -174,11 +231,15 @@ def run(tw, tier, seed, only=None):
     samples = [list(p) for p in pairs[:2]]
     return {"cases": cases, "nontrivial": nontriv, "failures": fails, "samples": samples, "exhaustive": False, "evaluations": cases,
             "bound": "%d checks: strategy inclusions on all pairs of 15 vendored templates x 47 substrates, forward and backward; metamorphic part on the productive pairs (sampled in quick): repeat, %d substrate SMILES rewritings, "
-                     "2 substrate graph renumberings (0-based reversed, shuffled), %d template map permutations, strategies all / comp / bt" % (cases, 2 if tier == "quick" else 5, 2 if tier == "quick" else 5),
+                     "2 substrate graph renumberings (0-based reversed, shuffled), %d template map permutations, strategies all / comp / bt; plus a configuration matrix on 5 pairs "
+                     "(3 strategies x implicit_temp on/off x embedding cap none/2/3; every fragment order, random rewritings, template renumberings)" % (cases, 2 if tier == "quick" else 5, 2 if tier == "quick" else 5),
             "rule": "a pair is non-trivial when the exhaustive strategy proposes at least one reaction in some direction"}
 
 
 def replay(tw, desc):
     fails = []
-    check_pair(tw, desc["template"], desc["substrate"], fails, random.Random(0), {})
+    if (desc.get("tags") or {}).get("clause") == "matrix-invariance" or "embed_threshold" in (desc.get("config") or {}):
+        check_matrix(desc["template"], desc["substrate"], fails, random.Random(0), {})
+    else:
+        check_pair(tw, desc["template"], desc["substrate"], fails, random.Random(0), {})
     return {"violations": [v for f in fails for v in f["violations"]]}
